@@ -1,0 +1,15 @@
+//go:build verif
+
+package factory
+
+import "github.com/go-kid/ioc/container"
+
+// NewWithRegistries builds the default factory around caller-supplied registries (verification hook).
+func NewWithRegistries(def container.DefinitionRegistry, single container.SingletonComponentRegistry) container.Factory {
+	return &defaultFactory{
+		definitionRegistry:                def,
+		singletonComponentRegistry:        single,
+		postProcessorRegistrationDelegate: NewPostProcessorRegistrationDelegate(),
+		allowCircularReferences:           true,
+	}
+}
